@@ -1,6 +1,6 @@
 #!/bin/bash
 # usage: confirm_seed.sh Cxx v   -> confirms /tmp/seed/Cxx/v in worktree /tmp/wt/Cxx; writes /tmp/seed/Cxx/v/confirm.txt
-id=$1; v=$2; wt=/tmp/wt/$id; sd=/tmp/seed/$id/$v
+id=$1; v=$2; wt=/tmp/wt/$id; sd=${SEEDROOT:-/tmp/seed}/$id/$v
 export GOFLAGS=-mod=mod GOPROXY=off
 out=$sd/confirm.txt; : > $out
 cd $wt || exit 1
